@@ -117,6 +117,13 @@ def run(ctx):
                 uniq += 1
                 shared = rng.random() < 0.3
                 steps.append(write_step(ctx, m, cache, k, rng.randrange(len(SHAPES)), None if shared else str(uniq).encode()))
+                if rng.random() < 0.04:
+                    # one record far larger than any buffer or tail window a reader might use (0.3 - 2.5 MiB on disk)
+                    big = {"metadata": {"blob": "b" * rng.choice([300000, 1100000, 2300000])}, "time": str(1000 + uniq)}
+                    st = {"mode": m, "req": {"op": "writer", "cache": cache, "key": k, "opts": big,
+                                             "chunks": [ctx.data(b"huge-" + str(uniq).encode())]}, "data": b"huge-" + str(uniq).encode()}
+                    steps.append(st)
+                    ctx.count("huge_records_written")
                 maxrec[k] = maxrec.get(k, 0) + 1
             elif r < 0.8:
                 steps.append({"mode": m, "req": {"op": "remove", "cache": cache, "key": k}})
